@@ -1,12 +1,12 @@
 #!/usr/bin/env python3
 """Sensitivity harness (G9): apply each hand-written mutant of /verif/mutants.json
-to /repo (text replacement), confirm that the repository builds and its own
+to a scratch worktree of /repo (text replacement; /repo itself is never touched), confirm that the repository builds and its own
 test suite still passes, run the listed checks (quick tier) and report which
-ones catch it. /repo is restored after every mutant.
+ones catch it.
 
 usage: tools/mutants.py [--prop Cxx] [--id name] [--tier quick|thorough] [--skip-suite]
 """
-import json, os, subprocess, sys, time
+import json, os, shutil, subprocess, sys, time
 
 ROOT = os.path.dirname(os.path.dirname(os.path.abspath(__file__)))
 ENV = dict(os.environ, GOFLAGS="-mod=mod", GOPROXY="off", GOSUMDB="off", GOTOOLCHAIN="local")
@@ -18,8 +18,48 @@ def sh(cmd, cwd=None, timeout=1800):
     return r.returncode, r.stdout
 
 
-def restore():
-    sh("git checkout -- .", cwd="/repo")
+def run_mutant(m, prop, tier, skip):
+    """apply the mutant in a scratch worktree of /repo (never /repo itself), run suite + checks there"""
+    wt, sc = "/tmp/wt/mut_" + m["id"], "/tmp/wt/mutsc_" + m["id"]
+    sh("git -C /repo worktree remove --force %s" % wt)
+    os.makedirs("/tmp/wt", exist_ok=True)
+    rc, out = sh("git -C /repo worktree add -q %s HEAD" % wt)
+    if rc:
+        return (m["id"], "NO-WORKTREE", {})
+    try:
+        for e in m["edits"]:
+            p = os.path.join(wt, e["file"])
+            s = open(p).read()
+            if s.count(e["old"]) != 1:
+                print("%s: pattern occurs %d times in %s" % (m["id"], s.count(e["old"]), e["file"]))
+                return (m["id"], "BAD-PATTERN", {})
+            open(p, "w").write(s.replace(e["old"], e["new"]))
+        rc, out = sh("go build ./... ", cwd=wt)
+        if rc != 0:
+            print(out[-1500:])
+            return (m["id"], "NO-BUILD", {})
+        suite = "skipped"
+        if not skip:
+            rc, out = sh("go test -vet=off -count=1 ./...", cwd=wt)
+            suite = "pass" if rc == 0 else "FAIL"
+        per = {}
+        for c in ([prop] if prop else m["props"]):
+            t0 = time.time()
+            r = subprocess.run([os.path.join(ROOT, "check"), c, tier], cwd=ROOT, env=dict(ENV, VERIF_REPO=wt, VERIF_SCRATCH=sc),
+                               stdout=subprocess.PIPE, stderr=subprocess.STDOUT, text=True, errors="replace", timeout=7200)
+            rc, out = r.returncode, r.stdout
+            sig = ""
+            for ln in out.splitlines():
+                if "VIOLATION-CANDIDATE" in ln and "sig=" in ln:
+                    sig = ln.split("sig=")[1].split()[0]
+                elif ln.startswith("VIOLATION property=") and not sig:
+                    sig = "process-level"
+            per[c] = ("CAUGHT" if rc == 1 else "missed" if rc == 0 else "inconclusive") + (" " + sig if sig else "") + " %.0fs" % (time.time() - t0)
+        print(m["id"], "suite=" + suite, per, flush=True)
+        return (m["id"], "suite=" + suite, per)
+    finally:
+        sh("git -C /repo worktree remove --force %s" % wt)
+        shutil.rmtree(sc, ignore_errors=True)
 
 
 def main():
@@ -27,6 +67,7 @@ def main():
     prop = ident = None
     tier = "quick"
     skip = False
+    jobs = 3
     while args:
         a = args.pop(0)
         if a == "--prop":
@@ -37,54 +78,13 @@ def main():
             tier = args.pop(0)
         elif a == "--skip-suite":
             skip = True
+        elif a == "-j":
+            jobs = int(args.pop(0))
     muts = json.load(open(os.path.join(ROOT, "mutants.json")))
-    rc, out = sh("git status --porcelain", cwd="/repo")
-    if out.strip():
-        print("/repo is not clean, refusing:\n" + out)
-        return 2
-    results = []
-    for m in muts:
-        if prop and prop not in m["props"]:
-            continue
-        if ident and ident != m["id"]:
-            continue
-        try:
-            ok = True
-            for e in m["edits"]:
-                p = os.path.join("/repo", e["file"])
-                s = open(p).read()
-                if s.count(e["old"]) != 1:
-                    print("%s: pattern occurs %d times in %s" % (m["id"], s.count(e["old"]), e["file"]))
-                    ok = False
-                    break
-                open(p, "w").write(s.replace(e["old"], e["new"]))
-            if not ok:
-                results.append((m["id"], "BAD-PATTERN", {}))
-                continue
-            rc, out = sh("go build ./... ", cwd="/repo")
-            if rc != 0:
-                results.append((m["id"], "NO-BUILD", {}))
-                print(out[-1500:])
-                continue
-            suite = "skipped"
-            if not skip:
-                rc, out = sh("go test -vet=off -count=1 ./...", cwd="/repo")
-                suite = "pass" if rc == 0 else "FAIL"
-                if rc != 0:
-                    print("%s: existing suite fails:\n%s" % (m["id"], out[-1200:]))
-            per = {}
-            for c in ([prop] if prop else m["props"]):
-                t0 = time.time()
-                rc, out = sh([os.path.join(ROOT, "check"), c, tier], cwd=ROOT, timeout=7200)
-                sig = ""
-                for ln in out.splitlines():
-                    if "VIOLATION-CANDIDATE" in ln and "sig=" in ln:
-                        sig = ln.split("sig=")[1].split()[0]
-                per[c] = ("CAUGHT" if rc == 1 else "missed" if rc == 0 else "inconclusive") + (" " + sig if sig else "") + " %.0fs" % (time.time() - t0)
-            results.append((m["id"], "suite=" + suite, per))
-            print(m["id"], "suite=" + suite, per, flush=True)
-        finally:
-            restore()
+    muts = [m for m in muts if (not prop or prop in m["props"]) and (not ident or ident == m["id"])]
+    from concurrent.futures import ThreadPoolExecutor
+    with ThreadPoolExecutor(max_workers=jobs) as ex:
+        results = list(ex.map(lambda m: run_mutant(m, prop, tier, skip), muts))
     # persist (merge with earlier results)
     resfile = os.path.join(ROOT, "mutants_results.json")
     try:
